@@ -1,4 +1,5 @@
 #pragma once
+#include <typeinfo>
 #include "data.h"
 #include "type.h"
 #include "value.h"
@@ -88,7 +89,18 @@ namespace sqf
             }
 
             sqf::runtime::type type() const override { return data_type(); }
-            virtual std::size_t hash() const override { return std::hash<std::string>()(to_string_sqf()); }
+            virtual std::size_t hash() const override
+            {
+                // Has to agree with do_equals, which compares instruction by instruction (`{0}` equals `{-0}`, the printed text differs):
+                // equal instructions are of the same kind, so the sequence of instruction kinds is hashed.
+                std::size_t res = m_value.size();
+                for (auto& inst : m_value)
+                {
+                    auto& ref = *inst;
+                    res = res * 31 + typeid(ref).hash_code();
+                }
+                return res;
+            }
 
             const sqf::runtime::instruction_set& value() const { return m_value; }
             void value(sqf::runtime::instruction_set flag) { m_value = flag; }
